@@ -22,10 +22,14 @@
     §6 Algorithm 3     `ctfTR_zero_only_from_simplify`, `ctfTR_answer_shape`, `ctfTR_event_shape`,
                        `ctfTR_q_good` (Q of Algorithm 2 is never Zero() and has the expected vocabulary),
                        `ctfTR_no_internal_error_partial` (Algorithm 3 never raises outside its crash classes),
-                       `ctfTR_answers_or_fails`
-  OPEN (stated below): ctfTR_no_internal_error on the crash classes (false on one, open on two).
+                       `ctfTR_answers_or_fails`; the two further classes decided:
+                       `ctfTR_no_internal_error_found_partial` (`DstarOneWorld` is not needed),
+                       `ctfTR_no_internal_error_plain_partial` (`OutcomeNotCondition` is not needed for distributions over
+                       plain variables; needed for arbitrary ones: witness `a3Shared`)
+  OPEN (stated below): ctfTR_no_internal_error without `OutcomesFound` (FALSE of the current code: witness `a3Miss`).
   The VALUE clause is in Y0/Props/C09Sound.lean: `ctfTRu_sound_partial` (Algorithm 2, proved inside the decidable class
-  `ctfSoundClass`), `ctfTR_sound_of_parts` (Algorithm 3, reduced to two named identities); OPEN there: ctfTR_sound.
+  `ctfSoundClass`), `ctfTR_sound_partial` (Algorithm 3, proved inside the decidable class `ctfTRSoundClass`);
+  OPEN there: both clauses outside their classes.
 
   Reading guide for §5 (definitions in Y0/Lemmas/CtfTrSimplify.lean, CtfTrLine2.lean, CtfTrSigma.lean, CtfTrTotal.lean):
     Reflexive e      := e.any fun p => p.1.ivs.any (·.name == p.1.name)          some event variable is `Y_y`
@@ -47,6 +51,7 @@ import Y0.Props.C19
 import Y0.Lemmas.CtfTrTotal
 import Y0.Lemmas.CtfTrAlg3Total
 import Y0.Lemmas.CtfTrAlg3QGood
+import Y0.Lemmas.CtfTrAlg3ErrQ
 
 namespace Y0
 namespace CtfTr
@@ -392,7 +397,8 @@ theorem transportFactors_all (ds : List Domain) : ∀ (fs : List Event) (qs : Li
 --   `ctfTRu_sound_partial`      PROVED for every validated input whose simplified event is in the decidable class
 --                               `ctfSoundClass` (no hypothesis about any part of the algorithm is left), for every family
 --                               of functional SCMs compatible with the declared domains (Y0/Spec/CtfFamilySpec.lean);
---   `ctfTR_sound_of_parts`      Algorithm 3 reduced to two named marginalisation-and-independence identities.
+--   `ctfTR_sound_partial`       Algorithm 3: PROVED for every validated conditional query in the decidable class
+--                               `ctfTRSoundClass` (the two identities of `ctfTR_sound_of_parts` are discharged).
 --   FALSE of the current code outside the class: events that give one variable two values, name one variable in two
 --   worlds, bind a literal subscript by a summation, or contain a self-intervened variable (known findings
 --   value:two_values, value:multi_world, value:literal_bound, value:reflexive — inherited from C19's findings).
@@ -722,14 +728,21 @@ theorem ctfTR_line2_total (target : MG Name) (hwf : target.WF) (o c : Event)
 --       (hdom : DomainsAgree target ds) (hplain : EventVarsPlain (o ++ c)) : ∀ err, ctfTR target ds o c ≠ .error err
 --   FALSE of the current code without `OutcomesFound`: witness `a3Miss` below (ValueError from Algorithm 2's validator on
 --   the empty D*), confirmed on the Python (findings crash:ctfTR-derived-event-rejected, crash:ctfTR-final-check).
---   OPEN whether the two other class hypotheses of `ctfTR_no_internal_error_partial` are needed:
---   * `DstarOneWorld`: in every run seen so far with a vertex in two worlds, Algorithm 2 answers FAIL (the two copies land
---     in one ctf-factor with inconsistent subscripts) before line 4 is reached; proving it needs the ctf-factor grouping
---     of line 2 of Algorithm 2 on the simplified event;
---   * `OutcomeNotCondition`: the fifth final check then needs "the outcome's vertex occurs in Q", i.e. a LOWER bound on the
---     variables of IDENTIFY's expressions (only the upper bound `QGood` is proved).
+--   The two other class hypotheses of `ctfTR_no_internal_error_partial` are DECIDED (end of this section):
+--   * `DstarOneWorld` is NOT needed: `ctfTR_no_internal_error_found_partial`.  A vertex in two worlds either disappears
+--     in the conversion of `D*` to ctf-factor form (both copies become `W_{pa(W)}` with the same parent values: SIMPLIFY
+--     binds a variable once) or makes line 3 of Algorithm 2 answer FAIL (two values of one parent in one ctf-factor), so
+--     the simplified event of an ANSWER binds every vertex once (`ffEvent_answer_fun`).  Non-vacuity: `a3Two`.
+--   * `OutcomeNotCondition` IS needed for arbitrary domain distributions: witness `a3Shared` below — the domain's
+--     distribution `PP[π](X, Y, Y_x)` lists a counterfactual variable next to its vertex, Lemma 1 of Tian's IDENTIFY
+--     writes the factor of `Y` in that world, `Y` does not occur in `Q`, and the fifth final check raises `KeyError` for
+--     `P*(Y = y | Y = y')` after both validators accepted the input; confirmed on the Python
+--     (tools/c09_popworld_witness.py; not expressible in the case format of harness/props/c09.py, whose domains carry
+--     `PP[π](V)` only).  It is NOT needed for distributions over plain variables (`PopsPlain`, what `PP[π](V)` is):
+--     `ctfTR_no_internal_error_plain_partial` — `OutcomesFound` is then the only crash class of Algorithm 3.
 --   No run of ./check C09 produced an exception on an input with `OutcomesFound = true` (4371 conditional cases of the
---   quick tier, seed 0: all 1785 internal errors have `OutcomesFound = false`).
+--   quick tier, seed 0: all 1785 internal errors have `OutcomesFound = false`; tools/c09_errsearch.py: 200000 cases biased
+--   towards the two classes, 0 exceptions of the model with `OutcomesFound = true`).
 
 /-! ### non-vacuity for Algorithm 3: Example 4.5-like `P*(y_x | x')` on figure 2a (corpus), and a crash-class witness -/
 
@@ -783,6 +796,176 @@ def a3PopDom : Domain :=
     pop := .prob (some (Var.plain 1001)) [{ name := 2, ivs := [⟨1, false⟩] }] [] }
 example : validateU (MG.fromEdges [] [(1, 2)] []) [a3PopDom] [({ name := 2 }, some ⟨2, false⟩)] =
     .error (.invalidInput "ValueError") := by decide +kernel
+
+/-! ### the two other class hypotheses of `ctfTR_no_internal_error_partial`, decided -/
+
+/-- **`DstarOneWorld` is not needed.**  An input accepted by the conditional validator (graphs built by `from_edges`,
+`EventVarsPlain`, `DomainsAgree`) whose outcomes are all found in the ancestral components under their own name and
+share no vertex with a condition is answered or refused, whether or not `D*` names a vertex in two worlds: the simplified
+event of an answer of Algorithm 2 on `D*` binds every graph vertex once (Y0/Lemmas/CtfTrAlg3Err.lean:
+`ffEvent_answer_fun`, `line2_same_name`), so the dict of the final checks loses nothing. -/
+theorem ctfTR_no_internal_error_found_partial (target : MG Name) (ds : List Domain) (o c : Event)
+    (hv : validateC target ds o c = .ok ()) (hwf : target.WF) (hds : ∀ d ∈ ds, d.graph.WF)
+    (hdom : DomainsAgree target ds) (hplain : EventVarsPlain (o ++ c))
+    (hfound : OutcomesFound target o c = true) (hdisj : OutcomeNotCondition o c = true) :
+    ∀ err, ctfTR target ds o c ≠ .error err :=
+  ctfTR_total_without_oneWorld target ds o c hv hwf hds hdom hplain hfound hdisj
+
+/-- **`OutcomeNotCondition` is not needed for distributions over plain variables.**  When the children of every domain's
+`PopulationProbability` are plain `Variable`s (`PopsPlain`, e.g. `PP[π](V)`), an input accepted by the conditional
+validator whose outcomes are all found is answered or refused: `OutcomesFound` is the only crash class of Algorithm 3.
+(The expression `Q` of Algorithm 2 then mentions the vertex of every found outcome — a lower bound on the variables of
+IDENTIFY's expressions, Y0/Lemmas/CtfTrAlg3ErrQ.lean: `identify_low`, `qCovers_of_popsPlain` — which is what the fifth
+final check needs for an outcome that is also a condition.) -/
+theorem ctfTR_no_internal_error_plain_partial (target : MG Name) (ds : List Domain) (o c : Event)
+    (hv : validateC target ds o c = .ok ()) (hwf : target.WF) (hds : ∀ d ∈ ds, d.graph.WF)
+    (hdom : DomainsAgree target ds) (hplain : EventVarsPlain (o ++ c))
+    (hfound : OutcomesFound target o c = true) (hpp : PopsPlain ds) :
+    ∀ err, ctfTR target ds o c ≠ .error err :=
+  ctfTR_total_of_found target ds o c hv hwf hds hdom hplain hfound hpp
+
+/-- with the trichotomy -/
+theorem ctfTR_answers_or_fails_plain (target : MG Name) (ds : List Domain) (o c : Event)
+    (hv : validateC target ds o c = .ok ()) (hwf : target.WF) (hds : ∀ d ∈ ds, d.graph.WF)
+    (hdom : DomainsAgree target ds) (hplain : EventVarsPlain (o ++ c))
+    (hfound : OutcomesFound target o c = true) (hpp : PopsPlain ds) :
+    (∃ a, ctfTR target ds o c = .ok (some a)) ∨ ctfTR target ds o c = .ok none := by
+  rcases ctfTR_trichotomy target ds o c hv with h | h | ⟨err, herr, _⟩
+  · exact Or.inl h
+  · exact Or.inr h
+  · exact absurd herr (ctfTR_no_internal_error_plain_partial target ds o c hv hwf hds hdom hplain hfound hpp err)
+
+/-- the part that replaces `DstarOneWorld`: an answer of Algorithm 2 on `D*` binds every graph vertex once -/
+theorem ctfTR_simplified_binds_once (target : MG Name) (ds : List Domain) (o c : Event)
+    (hv : validateC target ds o c = .ok ()) (hwf : target.WF) (hplain : EventVarsPlain (o ++ c))
+    (dstar : Event) (dNames : List Name) (q : Expr) (simplified : Event)
+    (h2 : line2C target o c = .ok (dstar, dNames))
+    (hu : ctfTRu target ds dstar = .ok (some (q, some simplified))) :
+    ∀ p ∈ simplified, ∀ p' ∈ simplified, p.1.name = p'.1.name → p.2 = p'.2 := by
+  obtain ⟨_, _, _, hnodes, _, hac, _⟩ := validateC_facts target ds o c hv
+  have hloop : ∀ v, ¬ target.DiEdge v v := fun v hvv =>
+    ((MG.isAcyclic_iff target hwf).1 hac) v (Relation.TransGen.single hvv)
+  have hok : ∀ p ∈ o ++ c, VarOK target p.1 := by
+    intro p hp
+    refine ⟨hnodes p ?_, Or.inr ⟨(hplain p hp).2.1, (hplain p hp).1⟩⟩
+    rcases List.mem_append.1 hp with h | h
+    · exact List.mem_append_right _ h
+    · exact List.mem_append_left _ h
+  obtain ⟨D, dstar', dNames', _, h2', _, hfacts⟩ := line2C_ok target hwf o c
+    (fun p hp => hok p (List.mem_append_left _ hp)) (fun p hp => hok p (List.mem_append_right _ hp))
+  rw [h2] at h2'
+  simp only [Except.ok.injEq, Prod.mk.injEq] at h2'
+  obtain ⟨rfl, rfl⟩ := h2'
+  exact ffEvent_answer_fun target hwf hloop ds dstar (fun r hr => by
+    obtain ⟨p, _, hc, _⟩ := hfacts.origin r hr
+    exact convertOne_ffvar target p.1 r.1 hc) q simplified hu
+
+/-! ### non-vacuity: an answered query with a vertex in two worlds, one with an outcome that is also a condition -/
+
+/-- `X → Y`, `X ↔ Y` (X=1, Y=0) -/
+def a3TwoGraph : MG Name := MG.fromEdges [] [(1, 0)] [(1, 0)]
+def a3TwoDom : Domain :=
+  { graph := MG.fromEdges [] [(1, 0)] [(1, 0)], topo := [1, 0], policy := [],
+    pop := .prob (some (Var.plain 1001)) (TrDsl.plainVars [0, 1]) [] }
+/-- `Y_x = y', Y = y'` -/
+def a3TwoOut : Event := [({ name := 0, ivs := [⟨1, false⟩] }, some ⟨0, true⟩), ({ name := 0 }, some ⟨0, true⟩)]
+/-- `X = x` -/
+def a3TwoCond : Event := [({ name := 1 }, some ⟨1, false⟩)]
+
+theorem a3Two_domainsAgree : DomainsAgree a3TwoGraph [a3TwoDom] := by
+  intro d hd
+  simp only [List.mem_singleton] at hd
+  subst hd
+  refine ⟨fun a b hab _ _ => ?_, fun a b hab => ?_⟩
+  · rw [a3TwoGraph, MG.biEdge_fromEdges] at hab
+    rw [a3TwoDom, MG.biEdge_fromEdges]
+    exact hab
+  · rw [a3TwoDom, MG.biEdge_fromEdges] at hab
+    simp only [List.mem_cons, List.not_mem_nil, or_false, Prod.mk.injEq] at hab
+    rcases hab with ⟨rfl, _⟩ | ⟨_, rfl⟩ <;> decide
+
+example : validateC a3TwoGraph [a3TwoDom] a3TwoOut a3TwoCond = .ok () := by decide +kernel
+example : OutcomesFound a3TwoGraph a3TwoOut a3TwoCond = true ∧ DstarOneWorld a3TwoGraph a3TwoOut a3TwoCond = false ∧
+    OutcomeNotCondition a3TwoOut a3TwoCond = true := by decide +kernel
+example : isAnswerWithEvent (ctfTR a3TwoGraph [a3TwoDom] a3TwoOut a3TwoCond) = true := by decide +kernel
+/-- `ctfTR_no_internal_error_found_partial` applies to it (`ctfTR_no_internal_error_partial` does not) -/
+example : ∀ err, ctfTR a3TwoGraph [a3TwoDom] a3TwoOut a3TwoCond ≠ .error err :=
+  ctfTR_no_internal_error_found_partial _ _ _ _ (by decide +kernel) (MG.wf_fromEdges _ _ _)
+    (by intro d hd
+        simp only [List.mem_singleton] at hd
+        subst hd; exact MG.wf_fromEdges _ _ _)
+    a3Two_domainsAgree (by unfold EventVarsPlain; decide) (by decide +kernel) (by decide +kernel)
+
+/-- `P*(Y = y | Y_x = y)` on `X → Y`, `X ↔ Y` (X=0, Y=1) with the target distribution itself: the outcome `Y` is also a
+condition vertex, and `D*` names `Y` in two worlds -/
+def a3BothGraph : MG Name := MG.fromEdges [] [(0, 1)] [(0, 1)]
+def a3BothDom : Domain :=
+  { graph := MG.fromEdges [] [(0, 1)] [(0, 1)], topo := [0, 1], policy := [],
+    pop := .prob (some (Var.plain 1000)) (TrDsl.plainVars [0, 1]) [] }
+def a3BothOut : Event := [({ name := 1 }, some ⟨1, false⟩)]
+def a3BothCond : Event := [({ name := 1, ivs := [⟨0, false⟩] }, some ⟨1, false⟩)]
+
+theorem a3Both_domainsAgree : DomainsAgree a3BothGraph [a3BothDom] := by
+  intro d hd
+  simp only [List.mem_singleton] at hd
+  subst hd
+  refine ⟨fun a b hab _ _ => ?_, fun a b hab => ?_⟩
+  · rw [a3BothGraph, MG.biEdge_fromEdges] at hab
+    rw [a3BothDom, MG.biEdge_fromEdges]
+    exact hab
+  · rw [a3BothDom, MG.biEdge_fromEdges] at hab
+    simp only [List.mem_cons, List.not_mem_nil, or_false, Prod.mk.injEq] at hab
+    rcases hab with ⟨rfl, _⟩ | ⟨_, rfl⟩ <;> decide
+
+example : validateC a3BothGraph [a3BothDom] a3BothOut a3BothCond = .ok () := by decide +kernel
+example : OutcomesFound a3BothGraph a3BothOut a3BothCond = true ∧ DstarOneWorld a3BothGraph a3BothOut a3BothCond = false ∧
+    OutcomeNotCondition a3BothOut a3BothCond = false ∧ popsPlainCheck [a3BothDom] = true := by decide +kernel
+example : isAnswerWithEvent (ctfTR a3BothGraph [a3BothDom] a3BothOut a3BothCond) = true := by decide +kernel
+/-- `ctfTR_no_internal_error_plain_partial` applies to it -/
+example : ∀ err, ctfTR a3BothGraph [a3BothDom] a3BothOut a3BothCond ≠ .error err :=
+  ctfTR_no_internal_error_plain_partial _ _ _ _ (by decide +kernel) (MG.wf_fromEdges _ _ _)
+    (by intro d hd
+        simp only [List.mem_singleton] at hd
+        subst hd; exact MG.wf_fromEdges _ _ _)
+    a3Both_domainsAgree (by unfold EventVarsPlain; decide) (by decide +kernel)
+    (popsPlain_of_check _ (by decide +kernel))
+
+/-- **crash-class witness `a3Shared`: `OutcomeNotCondition` is needed for arbitrary distributions** (as the Python:
+`KeyError` of the fifth final check, "at least one variable in the event … is not a variable in the expression", after
+both validators accepted the input; tools/c09_popworld_witness.py).  `X → Y` (X=1, Y=2), one domain with the target's
+graph and the distribution `PP[π1](X, Y, Y_x)`; the query is `P*(Y = y | Y = y')`.  Lemma 1 of IDENTIFY writes the
+c-factor of `Y` as `PP[π1](Y_x | X)` — `{child.get_base(): child}` keeps the last child on the vertex `Y` — so `Q` does
+not mention `Y`, and neither sum of line 4 ranges over `Y` (it is a condition vertex). -/
+def a3SharedGraph : MG Name := MG.fromEdges [] [(1, 2)] []
+def a3SharedDom : Domain :=
+  { graph := MG.fromEdges [] [(1, 2)] [], topo := [1, 2], policy := [],
+    pop := .prob (some (Var.plain 1001)) [Var.plain 1, Var.plain 2, { name := 2, ivs := [⟨1, false⟩] }] [] }
+def a3SharedOut : Event := [({ name := 2 }, some ⟨2, false⟩)]
+def a3SharedCond : Event := [({ name := 2 }, some ⟨2, true⟩)]
+
+example : validateC a3SharedGraph [a3SharedDom] a3SharedOut a3SharedCond = .ok () := by decide +kernel
+example : OutcomesFound a3SharedGraph a3SharedOut a3SharedCond = true ∧
+    DstarOneWorld a3SharedGraph a3SharedOut a3SharedCond = true ∧
+    OutcomeNotCondition a3SharedOut a3SharedCond = false ∧ popsPlainCheck [a3SharedDom] = false := by decide +kernel
+example : EventVarsPlain (a3SharedOut ++ a3SharedCond) := by unfold EventVarsPlain; decide
+example : DomainsAgree a3SharedGraph [a3SharedDom] := by
+  intro d hd
+  simp only [List.mem_singleton] at hd
+  subst hd
+  refine ⟨fun a b hab _ _ => ?_, fun a b hab => ?_⟩
+  · rw [a3SharedGraph, MG.biEdge_fromEdges] at hab
+    rw [a3SharedDom, MG.biEdge_fromEdges]
+    exact hab
+  · rw [a3SharedDom, MG.biEdge_fromEdges] at hab
+    simp at hab
+example : isInternal "KeyError" (ctfTR a3SharedGraph [a3SharedDom] a3SharedOut a3SharedCond) = true := by decide +kernel
+/-- the same query on the distribution over plain variables `PP[π1](X, Y)` is answered -/
+example : isAnswerWithEvent (ctfTR a3SharedGraph
+    [{ a3SharedDom with pop := .prob (some (Var.plain 1001)) (TrDsl.plainVars [1, 2]) [] }] a3SharedOut a3SharedCond) = true := by
+  decide +kernel
+/-- and so is the query with a condition on another vertex, `P*(Y = y | X = x')`, on `PP[π1](X, Y, Y_x)` -/
+example : isAnswerWithEvent (ctfTR a3SharedGraph [a3SharedDom] a3SharedOut [({ name := 1 }, some ⟨1, true⟩)]) = true := by
+  decide +kernel
 
 end CtfTr
 end Y0
